@@ -382,6 +382,9 @@ func synthNitro(r *rng) {
 		gh, lh := g, l
 		harvCase("synth", r, &gh, &lh, wdt, zeit)
 	}
+	if r.chance(0.5) {
+		progCase("synth", r)
+	}
 	if r.chance(0.6) {
 		mineralCase("synth", &g, &l)
 	}
